@@ -2,6 +2,7 @@ import AasVerif.Model.Expr.Wire
 import AasVerif.Model.Expr.Eval
 import AasVerif.Model.SdkVerify
 import AasVerif.Model.PyEmit
+import AasVerif.Model.PyRules
 /-!
 Line protocol of C08.
 
@@ -331,7 +332,88 @@ mutual
     | .paren e => "P" :: encPy e
 end
 
+/-! ### parse rules -/
+open AasVerif.PyAst in
+def pCmpOp : String → Option PyCmpOp
+  | "lt" => some .lt | "le" => some .le | "gt" => some .gt | "ge" => some .ge | "eq" => some .eq
+  | "ne" => some .ne | "in" => some .in_ | "notin" => some .notIn | "is" => some .is_ | "isnot" => some .isNot
+  | _ => none
+
+open AasVerif.PyAst in
+mutual
+  partial def pAst : P PyAst
+    | "C" :: ts => do
+      let (l, ts) ← pAst ts
+      let (ops, ts) ← pCounted (fun ts => match ts with
+        | o :: ts => (pCmpOp o).map (·, ts)
+        | [] => none) ts
+      let (cs, ts) ← pCounted pAst ts
+      some (.compare l ops cs, ts)
+    | "K" :: ts => do
+      let (f, ts) ← pAst ts
+      let (args, ts) ← pCounted pAst ts
+      let (kw, ts) ← pNat ts
+      some (.call f args kw, ts)
+    | "G" :: ts => do
+      let (elt, ts) ← pAst ts
+      let (gens, ts) ← pCounted pComp ts
+      some (.generatorExp elt gens, ts)
+    | "kn" :: ts => some (.constant .none, ts)
+    | "kb0" :: ts => some (.constant (.bool false), ts)
+    | "kb1" :: ts => some (.constant (.bool true), ts)
+    | "ki" :: ts => do let (i, ts) ← pInt ts; some (.constant (.int i), ts)
+    | "kf" :: ts => do let (t, ts) ← pText ts; some (.constant (.float t), ts)
+    | "ks" :: ts => do let (t, ts) ← pText ts; some (.constant (.str t), ts)
+    | "ko" :: ts => some (.constant .other, ts)
+    | "U" :: op :: ts => do
+      let op ← (match op with
+        | "not" => some UnOp.not | "usub" => some UnOp.usub | "uadd" => some UnOp.uadd
+        | "invert" => some UnOp.invert | _ => none)
+      let (e, ts) ← pAst ts
+      some (.unaryOp op e, ts)
+    | "B" :: ts => do
+      let (a, ts) ← pBool ts
+      let (vs, ts) ← pCounted pAst ts
+      some (.boolOp a vs, ts)
+    | "A" :: ts => do let (e, ts) ← pAst ts; let (n, ts) ← pText ts; some (.attribute e n, ts)
+    | "S" :: ts => do let (v, ts) ← pAst ts; let (i, ts) ← pAst ts; some (.subscript v i, ts)
+    | "N" :: ts => do let (n, ts) ← pText ts; some (.name n, ts)
+    | "O" :: ts => do
+      let (l, ts) ← pAst ts
+      match ts with
+      | op :: ts => do
+        let op ← (match op with
+          | "add" => some BinOpK.add | "sub" => some BinOpK.sub | "other" => some BinOpK.other | _ => none)
+        let (r, ts) ← pAst ts
+        some (.binOp l op r, ts)
+      | [] => none
+    | "J" :: ts => do let (vs, ts) ← pCounted pAst ts; some (.joinedStr vs, ts)
+    | "F" :: ts => do
+      let (v, ts) ← pAst ts
+      let (c, ts) ← pInt ts
+      let (sp, ts) ← pBool ts
+      some (.formattedValue v c sp, ts)
+    | "X" :: ts => some (.other, ts)
+    | _ => none
+  partial def pComp : P Comp := fun ts => do
+    let (t, ts) ← pAst ts
+    let (it, ts) ← pAst ts
+    let (ifs, ts) ← pCounted pAst ts
+    let (a, ts) ← pBool ts
+    some (.mk t it ifs a, ts)
+end
+
 def handle : List String → Option String
+  | ["rules", a] => do
+    let a ← decAll pAst a
+    match PyAst.ofPy a with
+    | .ok e => some ("ok " ++ Expr.Wire.enc e)
+    | .err => some "err"
+    | .crash => some "crash"
+  | ["evalpy", w, a] => do
+    let w ← decAll pWorld w
+    let a ← decAll pAst a
+    some (encOut (PyAst.evalPy w.env a))
   | ["emit", cfg, top, e] => do
     let cfg ← decAll pCfg cfg
     let e ← Expr.Wire.dec e
